@@ -417,8 +417,14 @@ def _on_terms(terms_by_decl):
         out += [z3.Implies(t == 0, iflips(sq, F, t) == sq),
                 z3.Implies(z3.And(0 <= t, t < ilen(F)), iflips(sq, F, t + 1) == iflip1(iflips(sq, F, t), iget(F, t))),
                 ilen(iflips(sq, F, t)) == ilen(sq), maxabs(iflips(sq, F, t)) == maxabs(sq), haszero(iflips(sq, F, t)) == haszero(sq)]
+    for (sq, F, t) in terms_by_decl.get('iflips', []):
+        # the same step read backwards (Neq.lean iflips_succ), so that a single flip iflips(s, [p], 1) unfolds to iflip1(s, p)
+        out.append(z3.Implies(z3.And(1 <= t, t <= ilen(F)), iflips(sq, F, t) == iflip1(iflips(sq, F, t - 1), iget(F, t - 1))))
     for (sq, i) in terms_by_decl.get('iflip1', []):
         out += [ilen(iflip1(sq, i)) == ilen(sq), maxabs(iflip1(sq, i)) == maxabs(sq), haszero(iflip1(sq, i)) == haszero(sq)]
+        if z3.is_app(sq) and sq.decl().name() == 'iflip1':
+            # Neq.lean iflip1_iflip1: negating the same position twice restores the list
+            out.append(z3.Implies(z3.And(sq.arg(1) == i, 0 <= i, i < ilen(sq.arg(0))), iflip1(sq, i) == sq.arg(0)))
     for (c_, t) in terms_by_decl.get('cget', []):
         if z3.is_app(c_) and c_.decl().name() == 'idxcombs':
             n, k = c_.children()
@@ -429,6 +435,13 @@ def _on_terms(terms_by_decl):
             out += [z3.Implies(z3.And(0 <= t, t < clen(c_)), distinct_idx(F)),
                     z3.Implies(z3.And(0 <= t, t < clen(c_)), z3.And(ilen(F) == k,
                     z3.ForAll([jf], z3.Implies(z3.And(0 <= jf, jf < k), z3.And(0 <= iget(F, jf), iget(F, jf) < n)))))]
+    for (n, k) in terms_by_decl.get('idxcombs', []):
+        # Neq.lean idxcombs_one: the 1-subsets of range(n), in order, are [0], [1], ..., [n-1]
+        out.append(z3.Implies(z3.And(k == 1, n >= 0), clen(idxcombs(n, k)) == n))
+    for (c_, t) in terms_by_decl.get('cget', []):
+        if z3.is_app(c_) and c_.decl().name() == 'idxcombs':
+            n, k = c_.children()
+            out.append(z3.Implies(z3.And(k == 1, 0 <= t, t < n), z3.And(ilen(cget(c_, t)) == 1, iget(cget(c_, t), 0) == t)))
     for (sq, F, t) in terms_by_decl.get('iflips', []):
         # un-flipping: applying the same positions again, in the same order, after a complete pass
         if z3.is_app(sq) and sq.decl().name() == 'iflips':
